@@ -55,7 +55,7 @@ fn dclass(d: i8) -> &'static str {
 
 pub fn run(p: &Params) -> Report {
     let mut rep = Report::new("C17");
-    rep.rule = "cases = (multiplier m, delta d, TIP-901 on/off): m in 0..=300 and 2^k-1, 2^k, 2^k+1 for k <= 70 (quick: every third k plus 62..70), all 256 deltas, before TIP-901 (mainnet height 100) and after (custom network); each case seals a fabricated state with seal(Some(action)) and with seal(None) and reads header().fee_multiplier. Oracle: exact big-integer step m + trunc(max(m>>7, 2*[901]) * d / 128); if that is negative the result must not exceed m; no panic; None leaves m unchanged. Plus long runs of +127 and -128. Non-trivial = every case; distinct by (m, d, tip901)".into();
+    rep.rule = "cases = (multiplier m, delta d, TIP-901 on/off): m in 0..=300 and 2^k-1, 2^k, 2^k+1 for k <= 70 (quick: every third k plus 62..70), all 256 deltas, before and after TIP-901 on 9 (network, height) configurations incl. mainnet 42699/42700/100000/179999 and testnet 499/500; each case seals a fabricated state with seal(Some(action)) and with seal(None) and reads header().fee_multiplier. Oracle: exact big-integer step m + trunc(max(m>>7, 2*[901]) * d / 128); if that is negative the result must not exceed m; no panic; None leaves m unchanged. Plus long runs of +127 and -128. Non-trivial = every case; distinct by (m, d, tip901)".into();
     let mut ms: Vec<u128> = (0..=300u128).collect();
     for k in 9..=70u32 {
         if !p.thorough && k < 62 && k % 3 != 0 {
@@ -70,15 +70,29 @@ pub fn run(p: &Params) -> Report {
         }
     }
     let mut idx = 0u64;
-    for tip901 in [false, true] {
-        for m in ms.iter().copied() {
+    // (network, height of the block that is sealed, is TIP-901 active there?) - the rule switches on mainnet at 42700 and on testnet at 500
+    let configs: [(NetID, u64, bool); 9] = [
+        (NetID::Mainnet, 100, false),
+        (NetID::Custom02, 10, true),
+        (NetID::Mainnet, 42_699, false),
+        (NetID::Mainnet, 42_700, true),
+        (NetID::Mainnet, 100_000, true),
+        (NetID::Mainnet, 179_999, true),
+        (NetID::Mainnet, 1_000_000, true),
+        (NetID::Testnet, 499, false),
+        (NetID::Testnet, 500, true),
+    ];
+    for (ci, (net, height, tip901)) in configs.iter().copied().enumerate() {
+        // the first two configurations get every multiplier; the boundary configurations the small ones and a sample
+        let ms_here: Vec<u128> = if ci < 2 { ms.clone() } else { ms.iter().copied().filter(|m| *m <= 300 && m % 3 == (ci as u128 % 3) || *m == 1u128 << 40 || *m == 255 || *m == 256).collect() };
+        for m in ms_here.iter().copied() {
             idx += 1;
             if idx % p.nshards != p.shard {
                 continue;
             }
             let db = new_db();
-            let (net, height) = if tip901 { (NetID::Custom02, 10u64) } else { (NetID::Mainnet, 100u64) };
-            let mut fab = Fab::new(net, height);
+            // the parent is fabricated one block below, so that the sealed block has exactly `height`
+            let mut fab = Fab::new(net, height - 1);
             fab.fee_multiplier = m;
             let parent = fab.build(&db);
             // None leaves it unchanged
@@ -100,7 +114,7 @@ pub fn run(p: &Params) -> Report {
                 let st = un.clone();
                 let got = guarded(move || st.seal(Some(action)).header().fee_multiplier);
                 let exp = expected(m, d, tip901);
-                let wit = json!({"m": m.to_string(), "delta": d, "tip901": tip901, "got": format!("{:?}", got.as_ref().map_err(|e| e.message.clone())), "expected": exp.as_ref().map(|e| e.to_string())});
+                let wit = json!({"m": m.to_string(), "delta": d, "tip901": tip901, "network": format!("{:?}", net), "sealed_height": height, "got": format!("{:?}", got.as_ref().map_err(|e| e.message.clone())), "expected": exp.as_ref().map(|e| e.to_string())});
                 if m >= (1u128 << 70) + 2 {
                     // beyond the stated range: only totality and no-wrap are required
                     match got {
